@@ -55,9 +55,9 @@ theorem frame_getOrCreateWriter (c : Cfg) (p : Proc) (i : Inst) (t : Topic) :
   · have := frame_getNextAvailableBlock c p i
     exact ⟨this.1, this.2⟩
 
-theorem frame_writerWrite (c : Cfg) (p : Proc) (i : Inst) (t : Topic) (w : Writer) (pay : Pay) (flt : Option Fault) :
-    (writerWrite c p i t w pay flt).1.side = p.side ∧ (writerWrite c p i t w pay flt).2.1.marks = i.marks := by
-  unfold writerWrite
+theorem frame_writerWriteCore (c : Cfg) (p : Proc) (i : Inst) (t : Topic) (w : Writer) (pay : Pay) (flt : Option Fault) :
+    (writerWriteCore c p i t w pay flt).1.side = p.side ∧ (writerWriteCore c p i t w pay flt).2.1.marks = i.marks := by
+  unfold writerWriteCore
   by_cases hb : w.batching = true
   · simp [hb]
   · simp only [hb, if_false, Bool.false_eq_true]
@@ -80,6 +80,13 @@ theorem frame_writerWrite (c : Cfg) (p : Proc) (i : Inst) (t : Topic) (w : Write
       by_cases hf : flt = some ⟨0, 0⟩
       · simp [hf, Inst.marks, Proc.side]
       · by_cases hl : t.long = true <;> simp [hf, hl, Inst.marks, Proc.side]
+
+theorem frame_writerWrite (c : Cfg) (p : Proc) (i : Inst) (t : Topic) (w : Writer) (pay : Pay) (flt : Option Fault) :
+    (writerWrite c p i t w pay flt).1.side = p.side ∧ (writerWrite c p i t w pay flt).2.1.marks = i.marks := by
+  unfold writerWrite
+  split
+  · exact ⟨rfl, rfl⟩
+  · exact frame_writerWriteCore c p i t w pay flt
 
 theorem frame_planBatch (c : Cfg) (t : Topic) (ps : List Pay) (p : Proc) (i : Inst) (b : Blk) (off : Nat)
     (acc : List (Blk × Nat × Pay)) :
@@ -104,9 +111,9 @@ theorem frame_planBatch (c : Cfg) (t : Topic) (ps : List Pay) (p : Proc) (i : In
         have := ih p2 i2 nb (c.metaSz + pay.len) ((nb, 0, pay) :: acc)
         exact ⟨by rw [this.1, h2.1, hs.1], by rw [this.2, h2.2, hs.2]⟩
 
-theorem frame_writerBatchWrite (c : Cfg) (p : Proc) (i : Inst) (t : Topic) (w : Writer) (ps : List Pay) (flt : Option Fault) :
-    (writerBatchWrite c p i t w ps flt).1.side = p.side ∧ (writerBatchWrite c p i t w ps flt).2.1.marks = i.marks := by
-  unfold writerBatchWrite
+theorem frame_writerBatchWriteCore (c : Cfg) (p : Proc) (i : Inst) (t : Topic) (w : Writer) (ps : List Pay) (flt : Option Fault) :
+    (writerBatchWriteCore c p i t w ps flt).1.side = p.side ∧ (writerBatchWriteCore c p i t w ps flt).2.1.marks = i.marks := by
+  unfold writerBatchWriteCore
   split
   · exact ⟨rfl, rfl⟩
   · split
@@ -126,6 +133,13 @@ theorem frame_writerBatchWrite (c : Cfg) (p : Proc) (i : Inst) (t : Topic) (w : 
               obtain ⟨off, plan⟩ := x
               simp only
               cases batchFails flt plan.length <;> exact this
+
+theorem frame_writerBatchWrite (c : Cfg) (p : Proc) (i : Inst) (t : Topic) (w : Writer) (ps : List Pay) (flt : Option Fault) :
+    (writerBatchWrite c p i t w ps flt).1.side = p.side ∧ (writerBatchWrite c p i t w ps flt).2.1.marks = i.marks := by
+  unfold writerBatchWrite
+  split
+  · exact ⟨rfl, rfl⟩
+  · exact frame_writerBatchWriteCore c p i t w ps flt
 
 theorem frame_readNextLoop (c : Cfg) (t : Topic) (cp : Bool) (fuel : Nat) (p : Proc) (i : Inst) (info : ColInfo) :
     (readNextLoop c t cp fuel p i info).1.side = p.side ∧ (readNextLoop c t cp fuel p i info).2.1.marks = i.marks := by
@@ -215,9 +229,9 @@ theorem reported_markClean (i : Inst) (t t' : Topic) (b : Bool) :
 theorem dir_markClean (i : Inst) (t : Topic) (b : Bool) : (markClean i t b).dir = i.dir := by
   unfold markClean; split; split <;> rfl
 
-theorem writerWrite_ne_closed (c : Cfg) (p : Proc) (i : Inst) (t : Topic) (w : Writer) (pay : Pay) (flt : Option Fault) :
-    (writerWrite c p i t w pay flt).2.2 ≠ some .closed := by
-  unfold writerWrite
+theorem writerWrite_ne_closedCore (c : Cfg) (p : Proc) (i : Inst) (t : Topic) (w : Writer) (pay : Pay) (flt : Option Fault) :
+    (writerWriteCore c p i t w pay flt).2.2 ≠ some .closed := by
+  unfold writerWriteCore
   by_cases hb : w.batching = true
   · simp [hb]
   · simp only [hb, if_false, Bool.false_eq_true]
@@ -238,9 +252,16 @@ theorem writerWrite_ne_closed (c : Cfg) (p : Proc) (i : Inst) (t : Topic) (w : W
       · simp [hf]
       · by_cases hl : t.long = true <;> simp [hf, hl]
 
-theorem writerBatchWrite_ne_closed (c : Cfg) (p : Proc) (i : Inst) (t : Topic) (w : Writer) (ps : List Pay) (flt : Option Fault) :
-    (writerBatchWrite c p i t w ps flt).2.2 ≠ some .closed := by
-  unfold writerBatchWrite
+theorem writerWrite_ne_closed (c : Cfg) (p : Proc) (i : Inst) (t : Topic) (w : Writer) (pay : Pay) (flt : Option Fault) :
+    (writerWrite c p i t w pay flt).2.2 ≠ some .closed := by
+  unfold writerWrite
+  split
+  · simp
+  · exact writerWrite_ne_closedCore c p i t w pay flt
+
+theorem writerBatchWrite_ne_closedCore (c : Cfg) (p : Proc) (i : Inst) (t : Topic) (w : Writer) (ps : List Pay) (flt : Option Fault) :
+    (writerBatchWriteCore c p i t w ps flt).2.2 ≠ some .closed := by
+  unfold writerBatchWriteCore
   split
   · simp
   · split
@@ -259,6 +280,13 @@ theorem writerBatchWrite_ne_closed (c : Cfg) (p : Proc) (i : Inst) (t : Topic) (
               obtain ⟨off, plan⟩ := x
               simp only
               cases batchFails flt plan.length <;> simp
+
+theorem writerBatchWrite_ne_closed (c : Cfg) (p : Proc) (i : Inst) (t : Topic) (w : Writer) (ps : List Pay) (flt : Option Fault) :
+    (writerBatchWrite c p i t w ps flt).2.2 ≠ some .closed := by
+  unfold writerBatchWrite
+  split
+  · simp
+  · exact writerBatchWrite_ne_closedCore c p i t w ps flt
 
 theorem appendForTopic_ne_closed (c : Cfg) (p : Proc) (i : Inst) (t : Topic) (pay : Pay) (flt : Option Fault) :
     (appendForTopic c p i t pay flt).2.2 ≠ .err .closed := by
